@@ -283,7 +283,9 @@ def cases():
         node = st.one_of(
             leaf,
             st.tuples(st.just("ns"), nname, sub).map(list),
-            st.tuples(st.just("nsleaf"), nname, st.lists(expr, min_size=1, max_size=3)).map(list),
+            # leaf-mode namespaces use their own name pool: using one name both as a leaf value and as a namespace is
+            # outside the claim (the dictionary cannot hold both under one key; the implementation rejects it)
+            st.tuples(st.just("nsleaf"), st.sampled_from(["l0", "l1"]), st.lists(expr, min_size=1, max_size=3)).map(list),
             st.tuples(st.just("scan"), st.integers(1, 3), sub, expr).map(list),
             st.tuples(st.just("vmap"), st.integers(2, 3), sub, st.sampled_from(["jax", "modular"])).map(list),
         )
